@@ -17,6 +17,7 @@ files are carried as the strings the implementation writes (`repr(float(field))`
 harness).  Executable, total, Mathlib-free.
 -/
 import PgFdr.Model.Basic
+import PgFdr.Model.C13
 
 namespace PgFdr.C15
 
@@ -193,21 +194,35 @@ def field (row : Row) (i : Nat) : Except String String :=
   | some x => .ok x
   | none => .error "short_row"                     -- IndexError
 
-/-- `parse_evidence_file_for_percolator_matching` for one row: every resolved column is read -/
+/-- the scan-number cell of `parse_evidence_file_for_percolator_matching`:
+    `scanNr = -1; if len(row[scannr_col]) > 0: scanNr = int(row[scannr_col])` — an empty cell is a
+    match-between-runs row (encoded −1 in the code, `none` here); a cell that reads −1 is the same
+    encoding.  NOTHING else takes part in the classification: in particular not the `Type` cell. -/
+def scanOfCell (scanF : String) : Except String (Option Int) :=
+  if scanF.isEmpty then .ok none else
+    match parseInt? scanF.toList with
+    | none => .error "bad_scan"
+    | some i => .ok (if i = -1 then none else some i)
+
+/-- the optional `Labeling State` cell must be empty or an integer -/
+def checkLabeling (c : Cols) (row : Row) : Except String Unit :=
+  match c.labeling with
+  | none => .ok ()
+  | some l =>
+    match row[l]? with
+    | none => .error "short_row"
+    | some lf =>
+      if lf.isEmpty then .ok () else
+        match parseInt? lf.toList with
+        | none => .error "bad_labeling_state"
+        | some _ => .ok ()
+
+/-- `parse_evidence_file_for_percolator_matching` for one row: every resolved column is read
+    (the `Type` cell too — `id_type=row[id_type_col]` — but only for the log statistics) -/
 def psmOf (c : Cols) (row : Row) : Except String Psm := do
   let scanF ← field row c.scan
-  let scan ← if scanF.isEmpty then pure none else
-    match parseInt? scanF.toList with
-    | none => throw "bad_scan"
-    | some i => pure (if i = -1 then none else some i)
-  match c.labeling with
-  | none => pure ()
-  | some l =>
-    let lf ← field row l
-    if lf.isEmpty then pure () else
-      match parseInt? lf.toList with
-      | none => throw "bad_labeling_state"
-      | some _ => pure ()
+  let scan ← scanOfCell scanF
+  checkLabeling c row
   let raw ← field row c.raw
   let _ ← field row c.score
   let _ ← field row c.pep
@@ -216,6 +231,14 @@ def psmOf (c : Cols) (row : Row) : Except String Psm := do
   let _ ← field row c.contaminant
   let _ ← field row c.idType
   pure { raw, scan, modSeq := slice 1 1 pepF }
+
+/-- the code's classification of an evidence row, read off the row: a match-between-runs row is a row
+    whose scan-number cell (`MS/MS scan number`, else `Scan number`) is empty (or reads −1, the
+    code's own encoding of "no scan") -/
+def isMbrRow (c : Cols) (row : Row) : Bool :=
+  match row[c.scan]? with
+  | none => false
+  | some f => f.isEmpty || parseInt? f.toList == some (-1)
 
 /-- one row of `update_evidence_single`:
     MBR ↦ unchanged | raw file absent ↦ dropped | key found ↦ row[score, pep := rescored] | else dropped;
@@ -323,5 +346,24 @@ def resultRowsOf (file : List Row) : Except String (List ResultRow) :=
 def mergeRaw (resultFiles : List (List Row)) (files : List (List Row)) : Except String (List Row) := do
   let rfs ← resultFiles.mapM resultRowsOf
   merge rfs files
+
+/-! ### The csv layer of the evidence files (`parsers/tsv.py`)
+
+`get_tsv_reader` = `csv.reader(open(f, newline="", encoding="utf-8-sig"), delimiter="\t")` and
+`get_tsv_writer` = `csv.writer(open(f, "w", newline=""), delimiter="\t")`, both with the default
+dialect (quotechar '"', doublequote, QUOTE_MINIMAL, "\r\n").  That dialect is modelled once, for
+C13 (`C13.parseText`: the character machine of `_csv.c`; `C13.formatRows`): reused here. -/
+
+/-- `list(get_tsv_reader(f))` on the decoded text of an evidence file -/
+def readTsv (text : List Char) : List Row := C13.parseText text
+
+/-- what `get_tsv_writer(f).writerow` leaves in the file for these records -/
+def writeTsv (rows : List Row) : List Char := C13.formatRows rows
+
+/-- `update_evidence_files` from the TEXT of the evidence files to the TEXT of the output file
+    (result files as rows: header first) -/
+def mergeTextRaw (resultFiles : List (List Row)) (texts : List (List Char)) : Except String (List Char) := do
+  let out ← mergeRaw resultFiles (texts.map readTsv)
+  pure (writeTsv out)
 
 end PgFdr.C15
